@@ -1,24 +1,33 @@
 import RzilVerif.Model.Sexp
 import RzilVerif.Model.DriverC04
+import RzilVerif.Model.DriverText
+import RzilVerif.Model.DriverC18
 open Rzil
 
-def dispatch (line : String) : String :=
+def dispatch (st : DState) (line : String) : DState × String :=
   match Sexp.parse line with
-  | none => "(error bad-sexp)"
+  | none => (st, "(error bad-sexp)")
   | some (.list xs) =>
     match handleC04 xs with
-    | some r => toString r
-    | none => "(error bad-request)"
-  | some _ => "(error bad-request)"
+    | some r => (st, toString r)
+    | none =>
+      match handleText st xs with
+      | some (st', r) => (st', toString r)
+      | none =>
+        match handleC18 xs with
+        | some r => (st, toString r)
+        | none => (st, "(error bad-request)")
+  | some _ => (st, "(error bad-request)")
 
-partial def loop (hin : IO.FS.Stream) (hout : IO.FS.Stream) : IO Unit := do
+partial def loop (hin : IO.FS.Stream) (hout : IO.FS.Stream) (st : DState) : IO Unit := do
   let line ← hin.getLine
   if line.isEmpty then return ()
-  hout.putStrLn (dispatch line)
-  loop hin hout
+  let (st', out) := dispatch st line
+  hout.putStrLn out
+  loop hin hout st'
 
 def main : IO Unit := do
   let hin ← IO.getStdin
   let hout ← IO.getStdout
-  loop hin hout
+  loop hin hout {}
   hout.flush
